@@ -31,6 +31,9 @@ CHECKS = {
  "C16": ("exploration", "reference naming predicate vs IsValidBucketName and real CreateBucket; settings round-trip monitor with restarts and byte-exact snapshots; ListBuckets ownership/paging chains; hook-point scheduler for DeleteBucket against concurrent uploads (both directions, same/other process); stress with conservation check; race lane",
    "Bucket names are generated against the core S3 rules; each bucket setting is put/deleted/read back on two gateway processes with a restart in between; creating an existing bucket by three kinds of caller must leave a byte-exact snapshot unchanged; every ListBuckets prefix/max-buckets/continuation chain for three owners is compared with the ownership model; DeleteBucket is held at each of its steps while an upload completes (and the converse) and the outcome pair is judged (never both acknowledged with the object lost).",
    "Trusts the hook placement, the core-rules reading of 'S3 naming rules' (extended rules not judged). Known finding: an upload in flight re-creates a bucket that DeleteBucket removed meanwhile.", "3/C16"),
+ "C04": ("exploration", "hostile-parameter workload against a uid-confined gateway in a jail tree with canaries at every directory level; monitors: byte-exact snapshot of everything outside the named bucket, canary contents / planted names in responses, sibling objects of the named bucket",
+   "Every path-like client parameter (bucket, key, copy source parts, listing prefix/markers/delimiter, versionId, uploadId, partNumber, DeleteObjects keys and version ids, admin bucket) is filled with escapes (13 spellings of '..' x depth 1-8 x file/directory tails, absolute paths) on every operation that takes it, by the bucket's non-admin owner and by root; after each request the whole jail is diffed and the response is searched for canaries.",
+   "Trusts snapshot completeness (content hash, mode, owner, xattrs); escapes that fasthttp or the URI/signature layer refuse never reach the handlers and are counted but trivial. The gateway runs as uid 4242 so that a confinement bug cannot touch the machine.", "3/C04"),
 }
 PENDING_REASON = "check not yet built in this session (under construction; see DESIGN.md section 3)"
 props=[json.loads(l)["id"] for l in open(os.path.join(V,"properties.jsonl"))]
